@@ -345,7 +345,7 @@ func ValidateLogMultiConfig(cfg *configpb.LogMultiConfig) (LogBackendMap, error)
 
 	// Check that logs all reference a defined backend.
 	logIDMap := make(map[string]bool)
-	for _, logCfg := range cfg.LogConfigs.Config {
+	for _, logCfg := range cfg.GetLogConfigs().GetConfig() {
 		if _, ok := backendMap[logCfg.LogBackendName]; !ok {
 			return nil, fmt.Errorf("log config: references undefined backend: %s: %v", logCfg.LogBackendName, logCfg)
 		}
